@@ -259,6 +259,20 @@ fn worker_state(sh: &Shared) -> Option<(String, String)> {
     None
 }
 
+fn classify(expected: &[u8], actual: &[u8], g: usize) -> &'static str {
+    if expected.is_empty() {
+        "bad-header-forwarded"
+    } else if g > 0 && actual.len() >= g && actual[..g] != expected[..g] {
+        "send-header-wrong"
+    } else if g == 0 && actual.len() < expected.len() && expected.ends_with(actual) {
+        "payload-lost-to-header-reader" // a suffix of the expected stream arrived: the head was swallowed
+    } else if actual.len() < expected.len() && expected.starts_with(actual) {
+        "backend-missing-bytes"
+    } else {
+        "backend-stream-differs"
+    }
+}
+
 /// Execute one behaviour. Ok(confirmed separations) or Err((class, detail)).
 fn run_behaviour(sh: &Shared, lane: &Lane, b: &Value, idx: usize) -> Result<(usize, usize), (String, Value)> {
     let mode = b["mode"].as_str().unwrap();
@@ -348,13 +362,15 @@ fn run_behaviour(sh: &Shared, lane: &Lane, b: &Value, idx: usize) -> Result<(usi
     };
     if !expected.is_empty() {
         let want = expected.len();
-        let okk = rec.wait(Duration::from_secs(4), |s| s.conns.len() > n0 && s.conns[n0..].iter().any(|c| c.bytes.len() >= want));
+        let okk = rec.wait(Duration::from_secs(3), |s| s.conns.len() > n0 && s.conns[n0..].iter().any(|c| c.bytes.len() >= want));
         if !okk {
             if let Some((k, m)) = worker_state(sh) {
                 sh.dead.store(true, Ordering::SeqCst);
                 return Err((k, json!({"message":m,"behaviour":describe(&rec.snapshot(n0))})));
             }
-            return Err(("backend-missing-bytes".into(), describe(&rec.snapshot(n0))));
+            let got = rec.snapshot(n0);
+            let actual: Vec<u8> = got.iter().find(|x| !x.0.is_empty()).map(|x| x.0.clone()).unwrap_or_default();
+            return Err((classify(&expected, &actual, g).into(), describe(&got)));
         }
     }
     if closes {
@@ -410,15 +426,7 @@ fn run_behaviour(sh: &Shared, lane: &Lane, b: &Value, idx: usize) -> Result<(usi
     }
     let actual: Vec<u8> = with_bytes.first().map(|x| x.0.clone()).unwrap_or_default();
     if actual != expected {
-        let class = if expected.is_empty() {
-            "bad-header-forwarded"
-        } else if actual.len() < expected.len() && expected.ends_with(&actual[actual.len().min(g)..]) && g == 0 {
-            "payload-lost-to-header-reader"
-        } else if g > 0 && actual.len() >= g && actual[..g] != expected[..g] {
-            "send-header-wrong"
-        } else {
-            "backend-stream-differs"
-        };
+        let class = classify(&expected, &actual, g);
         return Err((class.into(), describe(&got)));
     }
     Ok((seps, seps_ok))
@@ -557,7 +565,11 @@ fn main() {
                         }
                         let i = chosen[k];
                         let r = run_behaviour(&sh, &lane, &behs[i], i);
-                        results.lock().unwrap().push((i, r));
+                        let mut res = results.lock().unwrap();
+                        res.push((i, r));
+                        if res.iter().filter(|x| x.1.is_err()).count() >= 12 {
+                            sh.dead.store(true, Ordering::SeqCst); // enough evidence: do not spend minutes on deadlines
+                        }
                     }
                 }));
             }
